@@ -34,9 +34,9 @@ CLAIMED = {
     'C05': _c(BMC + 'UPDATE emits each record once with only assigned fields changed, RHS on original values, NU, missing-field error.', 'C05',
               'Bounds: <=3 rows x 1..3 fields ragged, cells str len<=2/None, 1-3 assignments, INNER/LEFT JOIN 2x2. Outside: JS twin (known to alias rows).'),
     'C06': _c(BMC + 'list sources deep-equal their snapshots after the query and after in-place mutation of every output record; only [A-Za-z0-9_]* identifiers reach the (fake) sqlite connection for every Unicode name within bounds.', 'C06',
-              'Claimed clauses: Python lists, sqlite identifier. NOT claimed (C extensions/OS): pandas dataframes, sqlite file, CSV files on disk, rbql-js arrays. Names without LF, len<=4 (quick)/5.'),
+              'Claimed clauses: Python lists, sqlite identifier. NOT claimed (C extensions/OS): pandas dataframes, sqlite file, CSV files on disk, rbql-js arrays. Names without LF, len<=4 (quick)/5. Also sources whose rows are tuples or hold list-valued cells (row identity, types and deep values compared).'),
     'C07': _c(BMC + 'output header width and names follow the documented rule for symbolic distinct header names.', 'C07',
-              'Bounds: 2-3 column headers, symbolic names len<=2 (concrete hostile names for a[...] queries: names are embedded in generated code), 2 rows. Outside: pandas writer, JS twin.'),
+              'Bounds: 2-3 column headers (plus bare identifiers that only start like aN/bN: direct column names, user-init variables), symbolic names len<=2 (concrete hostile names for a[...] queries: names are embedded in generated code), 2 rows. Outside: pandas writer, JS twin.'),
     'C11': {
         'text': 'Bounded model checking: for every Unicode line up to the stated length the real splitters (and the reader on a one-line stream) equal an independent dialect scanner, decided by z3 over all paths of the real code (CrossHair "Confirmed over all paths" per shard).',
         'design_ref': 'DESIGN.md section 6, C11',
@@ -44,13 +44,13 @@ CLAIMED = {
         'technique': 'symbolic execution of csv_utils/rbql_csv with z3 (CrossHair), differential against reference dialect scanner',
     },
     'C17': _c(BMC + 'like_to_regex structure for every pattern <=5 chars (symbolic) and LIKE == textbook matcher for every single-line text <=5 chars on all wildcard/literal shapes <=4.', 'C17',
-              'Bounds as stated; re.escape stubbed by a homomorphic marker in the structure lemma only. Outside: multi-line texts, JS twin.',
+              'Bounds as stated; re.escape stubbed by a homomorphic marker in the structure lemma only. Plus solver-enumerated texts over 9 normalisation- / case-folding-sensitive code points (C functions the engine cannot model run on concrete values per path). Outside: multi-line texts, JS twin.',
               'CrossHair symbolic execution of like_to_regex / LIKE via query_table (z3), differential against dynamic-programming matcher'),
 }
 
 CLAIMED.update({
     'C08': _c(BMC + 'every generated respelling (composition of the property\'s spelling transformations) equals the reference semantics of its base query on a symbolic table; the real literal scanner/combiner is opaque for every symbolic literal content.', 'C08',
-              'Bounds: 15 base queries x 6 (quick) / 24 (thorough) random compositions seeded by VERIF_SEED; literal content len<=3/4 (scanner back-reference expanded mechanically, validated per run); 28 hostile literals end to end. Outside: symbolic query text as a whole, JS twin.',
+              'Bounds: 15 base queries x 6 (quick) / 24 (thorough) random compositions seeded by VERIF_SEED; literal content len<=3/4 (scanner back-reference expanded mechanically, validated per run); 28 hostile literals end to end; literal pairs with 1-4 trailing backslashes; literal content over a solver-enumerated 20-member class of blank / line-boundary characters end to end. Outside: symbolic query text as a whole, JS twin.',
               'CrossHair symbolic execution of query_table on respelled texts + of separate_string_literals with a mechanically lowered regex (z3)'),
     'C09': _c(BMC + 'named column references denote the column at that header position (symbolic neighbours / hostile concrete names), escape and index-map lemmas over symbolic names, and header-line / WITH-modifier handling over symbolic CSV text.', 'C09',
               'Bounds: 3-name headers, symbolic names len<=2/3, 16 hostile names, CSV texts 2-3 lines x <=2 chars, caller flag x 5 modifiers, input and join table. Outside: pandas/sqlite header sources.',
@@ -62,7 +62,7 @@ CLAIMED.update({
               'Bounds: total length <=3 (quick)/<=5, 1-3 pieces, chunk sizes 1,2,3,1024, 11 reader configurations. Byte level: concrete multi-byte samples through the real encode_input_stream/io.TextIOWrapper with SYMBOLIC cut positions (every partition into <=3 raw reads); symbolic byte content stays outside (C object).',
               'CrossHair symbolic execution of rbql_csv.CSVRecordIterator over a piece-delivering stub stream (z3), differential against reference reader'),
     'C13': _c(BMC + 'query_table == query()+Table adapters == user-written iterator/writer/registry == CSV adapters on symbolic string tables; CLI contract of rbql_main.main() for every outcome of a nondeterministic query_csv stub.', 'C13',
-              'Claimed: list/query()/CSV adapters and the CLI contract in process. NOT claimed: real subprocess, files on disk, pandas, sqlite (OS / C boundaries).',
+              'Claimed: list/query()/CSV adapters and the CLI contract in process. Also the list front-ends in sequence over the same table objects, and stdin->stdout/file BYTES through the real encode_*_stream layers (cells solver-enumerated from a small pool). NOT claimed: real subprocess, files on disk, pandas, sqlite (OS / C boundaries).',
               'CrossHair symbolic execution of the adapters and of rbql_main.main with a nondeterministic stub engine (z3)'),
     'C14': _c(BMC + 'poisoned-record family for every evaluating clause (error class, first offending record number/field, rows already written), static-mistake family (error class, nothing written), warning iff-conditions for ragged tables and CSV adapters.', 'C14',
               'Bounds: <=3 int rows, all ragged shapes <=3x2, CSV texts 2 lines <=3 chars. Message contents beyond the documented prefix are not asserted.'),
